@@ -127,8 +127,25 @@ def ccInside (P : Params) (ncol : Nat) (dL dR : List Val) (c : Nat) (flag : Nat)
     ⟨flag + Flags.occlusion + Flags.mismatch * k - Flags.occlusion * k, conf.toConf⟩
   else ⟨flag, conf.toConf⟩
 
+/-- The code as it is, and the two repairs of finding C07-F1 the model can also follow
+    (`proposed_fixes/C07-outside-right*.diff`): `orFix` = the evident intent `|` (a pixel whose
+    correspondent is outside is an occlusion); `ruleFix` = such a pixel is classified mismatch /
+    occlusion by the same search as the other inconsistent pixels, as the property states. -/
+inductive Variant where
+  | asIs | orFix | ruleFix
+  deriving DecidableEq, Repr, Inhabited
+
+/-- the pixels that are not in `inside_right` -/
+def ccOutside (V : Variant) (P : Params) (ncol : Nat) (dR : List Val) (c : Nat) (flag : Nat) (q : Option Int) : PixOut :=
+  match V with
+  | .asIs => if outsideRightAsWritten ncol q then ⟨flag + Flags.occlusion, .nan⟩ else ⟨flag, .nan⟩
+  | .orFix => ⟨flag + Flags.occlusion, .nan⟩
+  | .ruleFix =>
+    let k := comp ncol dR c (arange P.dmin P.dmax)
+    ⟨flag + Flags.occlusion + Flags.mismatch * k - Flags.occlusion * k, .nan⟩
+
 /-- one pixel of one row of the loop -/
-def ccPixel (P : Params) (ncol : Nat) (dL dR : List Val) (c : Nat) (flag : Nat) : PixOut :=
+def ccPixel (V : Variant) (P : Params) (ncol : Nat) (dL dR : List Val) (c : Nat) (flag : Nat) : PixOut :=
   if Flags.isInvalid flag then ⟨flag, .nan⟩          -- not in `valid_pixel`
   else
     let q := colRight c (dL.getD c .nan)
@@ -136,12 +153,11 @@ def ccPixel (P : Params) (ncol : Nat) (dL dR : List Val) (c : Nat) (flag : Nat) 
       match q with
       | some qi => ccInside P ncol dL dR c flag qi
       | none => ⟨flag, .nan⟩
-    else if outsideRightAsWritten ncol q then ⟨flag + Flags.occlusion, .nan⟩
-    else ⟨flag, .nan⟩
+    else ccOutside V P ncol dR c flag q
 
-def ccRow (P : Params) (dL dR : List Val) (mask : List Nat) : List PixOut :=
+def ccRow (V : Variant) (P : Params) (dL dR : List Val) (mask : List Nat) : List PixOut :=
   let ncol := dL.length
-  (List.range ncol).map (fun c => ccPixel P ncol dL dR c (mask.getD c 0))
+  (List.range ncol).map (fun c => ccPixel V P ncol dL dR c (mask.getD c 0))
 
 /-- `mask_border`: rows `[:off]`, `[-off:]`, columns `[:off]`, `[-off:]` -/
 def isBorder (off nrow ncol r c : Nat) : Bool :=
@@ -163,8 +179,8 @@ def zipWith3 {α β γ δ : Type} (f : α → β → γ → δ) : List α → Li
   | _, _, _ => []
 
 /-- `disparity_checking(dataset_left := A, dataset_right := B)` -/
-def check (P : Params) (A B : Dataset) : Out :=
-  let rows := zipWith3 (ccRow P) A.disp B.disp A.mask
+def check (V : Variant) (P : Params) (A B : Dataset) : Out :=
+  let rows := zipWith3 (ccRow V P) A.disp B.disp A.mask
   let nrow := A.disp.length
   let mask := rows.mapIdx fun r row =>
     row.mapIdx fun c o =>
@@ -172,9 +188,9 @@ def check (P : Params) (A B : Dataset) : Out :=
   { disp := A.disp, mask := mask, conf := rows.map (·.map (·.conf)) }
 
 /-- `validation_run` without interpolation: left against right, then right against the checked left -/
-def validationRun (PL PR : Params) (L R : Dataset) : Out × Out :=
-  let l := check PL L R
-  let r := check PR R { disp := l.disp, mask := l.mask }
+def validationRun (V : Variant) (PL PR : Params) (L R : Dataset) : Out × Out :=
+  let l := check V PL L R
+  let r := check V PR R { disp := l.disp, mask := l.mask }
   (l, r)
 
 /-! ## Specification -/
@@ -218,20 +234,25 @@ def correspondents (dL : List Val) (c : Nat) : List Int :=
   | .nan => []
   | .num d => nearestInts ((c : Rat) + d)
 
+/-- consistent at the correspondent `q` (`none`: no correspondent at all) -/
+def consistentOpt (P : Params) (dL dR : List Val) (c : Nat) : Option Int → Bool
+  | some q => consistentAt P dL dR c q
+  | none => false
+
+/-- the confidence cell holds the left-right distance when there is a correspondent in the image -/
+def confOKOpt (dL dR : List Val) (c : Nat) (conf : Conf) : Option Int → Bool
+  | some q =>
+    (match distance dL dR c q with
+     | some x => conf == x.toConf
+     | none => true)
+  | none => true
+
 /-- The clauses of the statement for one previously valid, non-border pixel, for one admissible
     correspondent `q` (`none`: the disparity is NaN, there is no correspondent). -/
 def clausesValid (P : Params) (dL dR : List Val) (c : Nat) (flag : Nat) (o : PixOut) (q : Option Int) :
     List (String × Bool) :=
-  let consistent := match q with
-    | some q => consistentAt P dL dR c q
-    | none => false
-  let confOK := match q with
-    | some q => (match distance dL dR c q with
-                 | some x => o.conf == x.toConf
-                 | none => true)
-    | none => true
-  if consistent then
-    [("kept_iff_consistent", o.flag == flag), ("conf_band_value", confOK)]
+  if consistentOpt P dL dR c q then
+    [("kept_iff_consistent", o.flag == flag), ("conf_band_value", confOKOpt dL dR c o.conf q)]
   else
     let m := bitAt o.flag 9 == 1
     let oc := bitAt o.flag 8 == 1
@@ -240,7 +261,7 @@ def clausesValid (P : Params) (dL dR : List Val) (c : Nat) (flag : Nat) (o : Pix
       ("occlusion_otherwise", (witness false P dR c || oc) && (!oc || !witness true P dR c)),
       ("never_both", !(m && oc)),
       ("only_bits_8_9", sameExcept89 o.flag flag),
-      ("conf_band_value", confOK) ]
+      ("conf_band_value", confOKOpt dL dR c o.conf q) ]
 
 def allOK (l : List (String × Bool)) : Bool := l.all (·.2)
 
